@@ -33,15 +33,19 @@ ENGINES = [
      "kind_free_text": "TLC-checked request-path model; real handler probed with the full table; rows validated by TLC"},
     {"name": "defs", "path": "lib/domain.py (c17) + harness/defsprobe + tla/{Defs,DefsGen,DefsTrace}.tla", "serves_properties": ["C17"],
      "kind_free_text": "TLC enumerates definition cases; real loader / Equals probed; rows validated by TLC"},
-    {"name": "e1-core", "path": "lib/e1.py + harness/driver + tla/{Props,Prunner,ObsTrace}.tla",
+    {"name": "e1-core", "path": "lib/{e1,planner,conform,impltrace}.py + harness/driver + tla/{Props,Prunner,ObsTrace,ImplTrace,MC_*,Edges_*,Sim_*}.tla",
      "serves_properties": ["C01", "C02", "C03", "C04", "C05", "C06", "C07", "C08", "C10", "C11", "C12", "C15", "C16"],
      "kind_free_text": "TLC model checking of Prunner.tla against Props.tla; TLC-simulated behaviours replayed as scripts on the real "
                        "PipelineRunner + taskctl.Scheduler under testing/synctest virtual time; recorded ndjson traces monitored by TLC "
-                       "(ObsTrace.tla EXTENDS Props)"},
+                       "(ObsTrace.tla EXTENDS Props); the gated scripts (edge covers of eight configurations, every second simulated "
+                       "behaviour) are additionally validated step by step against the specification itself - by TLC on the actions of "
+                       "Prunner.tla (ImplTrace.tla) and on the dumped transition graph (conform.py) - which is reported as a diagnostic "
+                       "(evidence.coverage.conformance), never as a verdict"},
 ]
 
 E1_NOTE = ("Trusted: TLC, Go's testing/synctest, the harness' fake task runner (follows the Run/Cancel contract of taskctl.TaskRunner) and "
-           "its observation code. Client operations are issued at quiescent instants of the virtual clock; bounded model constants "
+           "its observation code (the fake's contract is itself specified and checked against the real task runner: TaskExec.tla). Client "
+           "operations are issued at quiescent instants of the virtual clock; bounded model constants "
            "(see evidence.model_configs); scripts are a seeded sample of the model's behaviours, not all of them.")
 
 E1_TECH = "TLA+ spec (Prunner.tla) model-checked with TLC against Props.tla; TLC-generated behaviours replayed on the real code; recorded traces validated by TLC against the same Props formulas"
